@@ -291,7 +291,12 @@ func rewritePackageOpt(pkg *packages.Package, outDir string, replace map[string]
 				add(off(x.Pos()), off(x.Pos()), "{ "+mv+" := "+text(x.X)+"\n")
 				add(off(x.X.Pos()), off(x.X.End()), mv)
 				var sets strings.Builder
-				fmt.Fprintf(&sets, "\nfor _, %s := range %sKeys(%s, %s) {\nif !%sHas(%s, %s) { continue }\n", kv, q, mv, siteLit, q, mv, kv)
+				// The key list is a snapshot. Entries the body adds to the map are visited or not at the
+				// simulator's choice (More), like the runtime may or may not produce them; a `break` in the
+				// body must leave both loops, hence the completion flag.
+				ks, sn, ix, done := kv+"s", kv+"seen", kv+"i", kv+"done"
+				fmt.Fprintf(&sets, "\n%s := %sSeen()\nfor %s := %sKeys(%s, %s); len(%s) > 0; %s = %sMore(%s, %s, %s) {\n%s := false\nfor %s := 0; ; %s++ {\nif %s == len(%s) { %s = true; break }\n%s := %s[%s]\n%sMark(%s, %s)\nif !%sHas(%s, %s) { continue }\n",
+					sn, q, ks, q, mv, siteLit, ks, ks, q, mv, sn, siteLit, done, ix, ix, ix, ks, done, kv, ks, ix, q, sn, kv, q, mv, kv)
 				isBlank := func(e ast.Expr) bool {
 					id, ok := e.(*ast.Ident)
 					return e == nil || (ok && id.Name == "_")
@@ -303,7 +308,7 @@ func rewritePackageOpt(pkg *packages.Package, outDir string, replace map[string]
 					fmt.Fprintf(&sets, "%sSet(&%s, %sAt(%s, %s))\n", q, text(x.Value), q, mv, kv)
 				}
 				add(off(x.Body.Lbrace)+1, off(x.Body.Lbrace)+1, sets.String())
-				add(off(x.Body.Rbrace), off(x.Body.Rbrace), "\n}\nbreak\n")
+				add(off(x.Body.Rbrace), off(x.Body.Rbrace), "\n}\nif !"+kv+"done { break }\n}\nbreak\n")
 				add(off(x.End()), off(x.End()), "\n}")
 			case *ast.CallExpr:
 				sel, ok := x.Fun.(*ast.SelectorExpr)
